@@ -98,10 +98,13 @@ Definition mon_init (progs : list (list op)) : mon :=
 Definition c30_ok (progs : list (list op)) (tr : list ev) : bool :=
   match mons (mon_init progs) tr with Some _ => true | None => false end.
 
-(* all operations of all programs have returned (used to tell complete traces) *)
-Definition c30_complete (progs : list (list op)) (tr : list ev) : bool :=
+(* a complete experiment: every operation of every program has returned and, at the end, as
+   many pop tickets as push tickets have been handed out (with c30_ok: every pushed element has
+   been returned by exactly one pop).  Used on traces that end with the draining thread. *)
+Definition c30_final_ok (progs : list (list op)) (tr : list ev) : bool :=
   match mons (mon_init progs) tr with
   | Some m => forallb (fun t => match rem m t with [] => true | _ => false end) (seq 0 (length progs))
+              && Nat.eqb (length (wC m)) (length (wP m))
   | None => false
   end.
 
